@@ -26,15 +26,19 @@ def run(cmd, cwd, env=None, timeout=1800):
 
 
 def demo(copy, demofile):
+    """the demonstration keeps the place it was written for: <repo root>/SEED/<variant>/seed_demo.py, run from the root"""
     env = dict(os.environ, PYTHONPATH=copy)
-    dst = os.path.join(copy, "_seed_demo.py")
+    variant = os.path.basename(os.path.dirname(demofile)) or "x"
+    rel = os.path.join("SEED", variant, "seed_demo.py")
+    dst = os.path.join(copy, rel)
+    os.makedirs(os.path.dirname(dst), exist_ok=True)
     shutil.copy(demofile, dst)
     src = open(demofile).read()
     if "def test_" in src:
-        rc, out = run([PY, "-m", "pytest", "-q", "-p", "no:cacheprovider", "_seed_demo.py"], copy, env, 600)
+        rc, out = run([PY, "-m", "pytest", "-q", "-p", "no:cacheprovider", rel], copy, env, 900)
     else:
-        rc, out = run([PY, "_seed_demo.py"], copy, env, 600)
-    os.unlink(dst)
+        rc, out = run([PY, rel], copy, env, 900)
+    shutil.rmtree(os.path.join(copy, "SEED"), ignore_errors=True)
     return rc, out[-600:]
 
 
